@@ -122,6 +122,23 @@ def _method(ctx, name):
     return ctx.function(REL, "MemoryStore." + name)
 
 
+def _contract_paths(ctx, mm, fn, **kw):
+    """The paths of a store method under its CONTRACT: a parameter that has a default in the signature (one the store API has grown:
+    get(key, default=STATE_NOTSET), add_key(key, value=STATE_NOTSET)) is bound to that default.  What the method does when a caller
+    passes something else is the caller's business: the executor marks a store call with arguments beyond the modelled ones as
+    unresolved, so no operator-level finding on such a path is taken for a verdict."""
+    env = dict(kw.pop("extra_env", None) or {})
+    a = fn.args
+    pairs = list(zip(a.args[len(a.args) - len(a.defaults):], a.defaults)) + [(x, d) for x, d in zip(a.kwonlyargs, a.kw_defaults) if d is not None]
+    for arg, d in pairs:
+        if arg.arg in env:
+            continue
+        t = ctx.ex.eval_in_scope(mm, None, d)
+        if t is not None:
+            env[arg.arg] = t
+    return ctx.fn_paths(mm, fn, extra_env=env or None, **kw)
+
+
 def _f(rule, what, m, node, msg, trace=None):
     return Finding(rule, "%s::MemoryStore.%s" % (REL, what), m.where(node), msg, trace or [])
 
@@ -137,11 +154,12 @@ def rule_ms(ctx: Ctx):
 
     # ---------------- MS-1 / MS-2 / MS-3 : add_key -------------------------
     mm, fn = _method(ctx, "add_key")
-    paths = ctx.fn_paths(mm, fn, max_iter=1)
+    paths = _contract_paths(ctx, mm, fn, max_iter=1)
     r1.instances += 1
     r3.instances += 1
     grow_paths = 0
     saw_mapper = False
+    growth_loops = {}
     for p in paths:
         r1.paths += 1
         r3.paths += 1
@@ -156,29 +174,25 @@ def rule_ms(ctx: Ctx):
             k0 = [a for a in atoms if _key0(a)]
             ln = [a for a in atoms if a[0] == "call" and a[1] == ("builtin", "len") and _arr(a[2][0]) is not None]
             return len(atoms) == 2 and len(k0) == 1 and len(ln) == 1 and atoms[k0[0]] == 1 and atoms[ln[0]] == -1
-        # growth, idiom 1: a loop appending one slot to each array per step
+        # growth, idiom 1: loops appending slots -- one loop for the three arrays, or one loop per array (a helper called three times);
+        # collected over all paths and judged per array below (separate loops iterate independently in the path enumeration although
+        # their counts are equal under the lock-step invariant)
         for it in iters:
             grow_paths += 1
-            # range(append_count) with append_count = key[0] + 1 - len(<array>), guarded by append_count > 0
             rng = it.iter
             ok = rng is not None and rng[0] == "call" and rng[1] == ("builtin", "range") and len(rng[2]) == 1
             cnt = rng[2][0] if ok else None
-            good = count_ok(cnt)
-            r1.ob(good, lambda: _f("MS-1", "add_key{growth-count}", mm, it.node,
-                                   "the arrays must grow by (key[0] + 1) - len(array) slots so that index key[0] exists afterwards; the loop runs over %s" % show(rng), trace_of(p)))
-            # appends inside the iteration
+            if cnt is not None and cnt[0] == "call" and cnt[1] == ("builtin", "max") and len(cnt[2]) == 2 and ("const", 0) in cnt[2]:
+                cnt = [x for x in cnt[2] if x != ("const", 0)][0]      # max(n, 0): no growth when the slot exists
             pos = p.trace.index(it)
             end = next((k for k in range(pos + 1, len(p.trace)) if p.trace[k].k in ("loopiter", "loopexit")), len(p.trace))
             apps = {}
             for e in p.trace[pos:end]:
                 if e.k == "mutate" and e.method == "append" and _arr(e.base):
                     apps.setdefault(_arr(e.base), []).append(e)
-            r1.ob(all(len(apps.get(a, [])) == 1 for a in ARRAYS), lambda: _f(
-                "MS-1", "add_key{lock-step}", mm, it.node,
-                "each growth step must append exactly one slot to values, state and keys; it appends %s" % {a: len(apps.get(a, [])) for a in ARRAYS}, trace_of(p)))
-            st_app = apps.get("state", [None])[0]
-            r3.ob(st_app is not None and _marker_code(st_app.args[0]) == "CLEARED", lambda: _f(
-                "MS-3", "add_key{fresh-slot-marker}", mm, it.node, "slots created by growth (indices below key[0]) must be marked CLEARED, not readable", trace_of(p)))
+            key_ = (id(it.node), tuple(sorted(apps)))
+            if key_ not in growth_loops:
+                growth_loops[key_] = (it, rng, cnt, apps, p)
         # growth, idiom 2: array.extend([filler] * count), once per array, under count > 0
         exts = [e for e in p.trace if e.k == "mutate" and e.method == "extend" and _arr(e.base)]
         if exts:
@@ -236,6 +250,23 @@ def rule_ms(ctx: Ctx):
                 "add_key; on this path [%s] the value array is %s" % ("; ".join(d.brief() for d in dflt), "not written" if not vals else "written with something else"), trace_of(p)))
         else:
             r3.ob(not vals, lambda: _f("MS-3", "add_key{no-default}", mm, fn, "without default the value must stay unwritten (NOTSET)", trace_of(p)))
+    if growth_loops:
+        per_array = {a: [] for a in ARRAYS}
+        for it, rng, cnt, apps, p in growth_loops.values():
+            r1.ob(count_ok(cnt), lambda it=it, rng=rng, p=p: _f(
+                "MS-1", "add_key{growth-count}", mm, it.node,
+                "the arrays must grow by (key[0] + 1) - len(array) slots so that index key[0] exists afterwards; the loop runs over %s" % show(rng), trace_of(p)))
+            for a, es in apps.items():
+                per_array[a].append((it, es, p))
+        lock = all(len(v) == 1 and len(v[0][1]) == 1 for v in per_array.values())
+        r1.ob(lock, lambda: _f(
+            "MS-1", "add_key{lock-step}", mm, fn,
+            "each growth step must append exactly one slot to values, state and keys (in one loop, or in one loop per array); appends per step: %s" % {
+                a: [len(es) for _, es, _ in v] for a, v in per_array.items()}))
+        st = per_array["state"][0] if per_array["state"] else None
+        r3.ob(st is not None and _marker_code(st[1][0].args[0]) == "CLEARED", lambda: _f(
+            "MS-3", "add_key{fresh-slot-marker}", mm, fn, "slots created by growth (indices below key[0]) must be marked CLEARED, not readable",
+            trace_of(st[2]) if st else None))
     r1.ob(grow_paths > 0, lambda: _f("MS-1", "add_key{growth}", mm, fn, "add_key no longer grows the arrays"))
     r3.ob(saw_mapper, lambda: _f("MS-3", "add_key{mapper}", mm, fn,
                                  "add_key has no path for mapper stores: a mapper slot must start as a dict created by this very call (a dict kept in the store "
@@ -246,7 +277,7 @@ def rule_ms(ctx: Ctx):
     for name in writers:
         mm, fn = _method(ctx, name)
         r2.instances += 1
-        for p in ctx.fn_paths(mm, fn, max_iter=1):
+        for p in _contract_paths(ctx, mm, fn, max_iter=1):
             r2.paths += 1
             for e in p.trace:
                 if e.k == "substore":
@@ -293,7 +324,7 @@ def rule_ms(ctx: Ctx):
     # clear() resets the three arrays together
     mm, fn = _method(ctx, "clear")
     r1.instances += 1
-    for p in ctx.fn_paths(mm, fn):
+    for p in _contract_paths(ctx, mm, fn):
         r1.paths += 1
         reset = set()
         for e in p.trace:
@@ -306,7 +337,7 @@ def rule_ms(ctx: Ctx):
     # ---------------- MS-3: set / del_key / get -----------------------------
     mm, fn = _method(ctx, "set")
     r3.instances += 1
-    for p in ctx.fn_paths(mm, fn):
+    for p in _contract_paths(ctx, mm, fn):
         r3.paths += 1
         ws = {(_arr(e.base)): e for e in p.trace if e.k == "substore" and _arr(e.base)}
         ok = set(ws) == set(ARRAYS) and _marker_code(ws["state"].value) == "SET" and ws["values"].value == ("arg", "value") \
@@ -314,7 +345,7 @@ def rule_ms(ctx: Ctx):
         r3.ob(ok, lambda: _f("MS-3", "set", mm, fn, "set must store the value, mark the slot SET and record the key; it does: %s" % [e.brief() for e in ws.values()], trace_of(p)))
     mm, fn = _method(ctx, "del_key")
     r3.instances += 1
-    for p in ctx.fn_paths(mm, fn):
+    for p in _contract_paths(ctx, mm, fn):
         r3.paths += 1
         ws = {(_arr(e.base)): e for e in p.trace if e.k == "substore" and _arr(e.base)}
         ok = "state" in ws and _marker_code(ws["state"].value) == "CLEARED" and "values" in ws and ws["values"].value[0] == "const"
@@ -323,7 +354,7 @@ def rule_ms(ctx: Ctx):
     mm, fn = _method(ctx, "get")
     r3.instances += 1
     saw_notset = saw_value = False
-    for p in ctx.fn_paths(mm, fn):
+    for p in _contract_paths(ctx, mm, fn):
         r3.paths += 1
         decs = [e for e in p.trace if e.k == "decision" and e.test[0] == "cmp" and any(_marker_code(x) == "NOTSET" for x in (e.test[2], e.test[3]))]
         if not decs:
@@ -351,6 +382,23 @@ def rule_ms(ctx: Ctx):
                 r3.ob(v[0] == "call" and v[1] == ("builtin", "bool"), lambda: _f(
                     "MS-3", "get{bool}", mm, fn, "a bool state is stored as a byte and must be converted back with bool()", trace_of(p)))
     r3.ob(saw_notset and saw_value, lambda: _f("MS-3", "get{both}", mm, fn, "get must have a NOTSET path and a value path"))
+    # the one extension the operator-level model follows -- get(key, default): on the NOTSET path the caller's default comes back, and
+    # nothing else depends on it (the forwarders Store.get / StoreManager.get_state pass it on: MS-6)
+    extra = [a.arg for a in fn.args.args[2:]] + [a.arg for a in fn.args.kwonlyargs]
+    if extra:
+        if extra != ["default"]:
+            raise AnalysisError("MemoryStore.get takes %s beyond the key: the store model knows get(key) and get(key, default)" % extra)
+        for p in ctx.fn_paths(mm, fn):
+            r3.paths += 1
+            decs = [e for e in p.trace if e.k == "decision" and e.test[0] == "cmp" and any(_marker_code(x) == "NOTSET" for x in (e.test[2], e.test[3]))]
+            uses = any(x == ("arg", "default") for e in p.trace for x in (subterms(e.test) if e.k == "decision" else ()))
+            notset = bool(decs) and decs[0].outcome == (decs[0].test[1] == "Eq")
+            ok = not uses and ((p.value == ("arg", "default")) if notset else not any(x == ("arg", "default") for x in subterms(p.value or ("const", None))))
+            if not ok:
+                # another meaning of the parameter may be perfectly right; it is not the one the operator-level model gives a third argument
+                raise AnalysisError("MemoryStore.get: its default parameter is not simply returned for a slot that reads NOTSET (this path returns %s); the "
+                                    "model of get_state(state, key, default) does not describe this store" % (show(p.value) if p.value is not None else None))
+            r3.ob(True)
     # marker codes are pairwise distinct byte constants
     codes = marker_codes(prog)
     r3.instances += 1
@@ -390,7 +438,7 @@ def rule_ms(ctx: Ctx):
                                           "without free slot the result must be next_index and next_index + 1 must be returned as the new counter; returns %s" % show(v), trace_of(p)))
         r4.ob(saw_next, lambda: Finding("MS-4", "%s::new_index{fresh-path}" % REL, fm.where(ffn), "new_index has no path handing out next_index"))
         mm, fn = _method(ctx, "add_map")
-        for p in ctx.fn_paths(mm, fn, inline=False):
+        for p in _contract_paths(ctx, mm, fn, inline=False):
             r4.paths += 1
             calls = [e for e in p.trace if e.k == "call" and e.func[0] == "func" and e.func[1].name == "new_index"]
             ok = len(calls) == 1 and tuple(calls[0].args) == (("attr", SELF, "next_index"), ("attr", SELF, "free_slots"))
@@ -408,7 +456,7 @@ def rule_ms(ctx: Ctx):
         # self.next_index, which then moves on by one -- never from something that restarts per parent key (the size of the parent's map)
         mm, fn = _method(ctx, "add_map")
         NXT, FRS = ("attr", SELF, "next_index"), ("attr", SELF, "free_slots")
-        for p in ctx.fn_paths(mm, fn):
+        for p in _contract_paths(ctx, mm, fn):
             r4.paths += 1
             if p.outcome != "return":
                 continue
@@ -430,7 +478,7 @@ def rule_ms(ctx: Ctx):
     # get_map: membership by 'in' (hash + ==) and dict indexing
     mm, fn = _method(ctx, "get_map")
     r4.instances += 1
-    for p in ctx.fn_paths(mm, fn):
+    for p in _contract_paths(ctx, mm, fn):
         r4.paths += 1
         d = [e for e in p.trace if e.k == "decision"]
         ok = len(d) == 1 and d[0].test[0] == "cmp" and d[0].test[1] in ("In", "NotIn") and d[0].test[2] == ("arg", "map_key")
@@ -665,7 +713,7 @@ def rule_ms7(ctx: Ctx) -> RuleResult:
     for name, code in (("is_set", "SET"), ("is_cleared", "CLEARED")):
         mm, fn = _method(ctx, name)
         r.instances += 1
-        for p in ctx.fn_paths(mm, fn):
+        for p in _contract_paths(ctx, mm, fn):
             r.paths += 1
             v = p.value
             rel = None
@@ -695,7 +743,7 @@ def rule_ms7(ctx: Ctx) -> RuleResult:
     mm, fn = _method(ctx, "iterate")
     r.instances += 1
     n_yield = 0
-    for p in ctx.fn_paths(mm, fn, max_iter=1):
+    for p in _contract_paths(ctx, mm, fn, max_iter=1):
         r.paths += 1
         its = [e for e in p.trace if e.k == "loopiter"]
         if not its:
@@ -775,6 +823,13 @@ def ms_for_types(*types, maps=False):
             r.discharged += len(r.findings) - len(kept)
             r.findings = kept
             out.append(r)
+        # the layers between an operator and the MemoryStore: StoreManager / Store pass every operation on, unchanged and uncached
+        r6 = rule_ms6(ctx)
+        if not maps:
+            kept = [f for f in r6.findings if "_map" not in f.construct]
+            r6.discharged += len(r6.findings) - len(kept)
+            r6.findings = kept
+        out.append(r6)
         return out
     run.__name__ = "rule_ms_" + "_".join(types)
     return run
